@@ -90,12 +90,13 @@ pub fn specs(thorough: bool) -> Vec<BuildSpec> {
         }
     }
     // (2c) paths that are related to each other: one a suffix / prefix of the other, same base name in different directories
-    let related: [&[&str]; 5] = [
+    let related: [&[&str]; 6] = [
         &["/opt/vendor/usr/bin/tool", "/usr/bin/tool"],
         &["/a/b/f", "/b/f", "/f"],
         &["/usr/bin/tool", "/usr/bin/tool.d/tool"],
         &["/d/a", "/d/a.bak", "/d/aa"],
         &["/x/y", "/x/y/z"],
+        &["/d/File", "/d/file", "/D/file"],
     ];
     for set in related {
         for c in [Comp::None, Comp::Gzip(6)] {
